@@ -1261,7 +1261,7 @@ class CompartmentalSystem(Statement):
                 rate = self.get_flow(from_comp, to_comp)
                 if i != j:
                     f[j, i] = rate
-                diagsum -= rate
+                    diagsum -= rate
             outrate = self.get_flow(from_comp, output)
             f[i, i] = diagsum - outrate
         return Matrix(f)
